@@ -3,7 +3,7 @@
    Directives used: those of ExtrOcamlBasic only (bool, option, unit, list, prod, sumbool, sumor);
    no Extract Constant; Z / positive stay as extracted inductives. *)
 Require Import ExtrOcamlBasic.
-Require Import Base Fixed Panic Curve Bank BankOps Risk Handlers TransferFee XrateConsts Xrate Price ConfigGen Config Emode ConfigPaths ConfigHealth.
+Require Import Base Fixed Panic Curve Bank BankOps Risk Handlers TransferFee XrateConsts Xrate Price ConfigGen Config Emode ConfigPaths ConfigHealth PrivGen Privilege Deleverage.
 Extraction Language OCaml.
 Separate Extraction
   p_pause p_unpause p_unpause_if_expired p_is_expired p_can_pause c_is_expired ix_propagate
@@ -29,4 +29,5 @@ Separate Extraction
   ix_configure_interest_only ix_configure_limits_only ix_configure_emode ix_clone_emode
   ix_propagate_staked ix_migrate_curve ix_group_set_caps ix_init_staked_settings
   ix_edit_staked_settings es_zeroed account_health account_health_no_emode probe_position apply_reqs
-  OP_KILLED DEFAULT_INIT_MAX_EMODE_LEVERAGE DEFAULT_MAINT_MAX_EMODE_LEVERAGE.
+  OP_KILLED DEFAULT_INIT_MAX_EMODE_LEVERAGE DEFAULT_MAINT_MAX_EMODE_LEVERAGE
+  pstep zeros dv_tx configure_withdrawal_limit positions wrun.
